@@ -107,6 +107,7 @@ func Main(t *testing.T, reg Registry) {
 		w.WriteByte('\n')
 		w.Flush()
 	}
+	go memoryGuard()
 	rl := newRaceLog(job.RaceLog)
 	for i := job.From; i < job.From+job.Count; i++ {
 		if job.Deadline != 0 && time.Now().Unix() > job.Deadline {
@@ -150,6 +151,22 @@ func Main(t *testing.T, reg Registry) {
 		emit(r)
 	}
 	emit(&Result{Kind: "end"})
+}
+
+// memoryGuard ends the executor when its heap passes a budget (real time, outside
+// any bubble): the sandbox has no memory limit, and a generated program whose
+// bindings nest themselves on every step would otherwise take the machine down.
+// The driver recognises the marker and counts the run as skipped.
+func memoryGuard() {
+	var ms runtime.MemStats
+	for {
+		time.Sleep(250 * time.Millisecond)
+		runtime.ReadMemStats(&ms)
+		if ms.HeapAlloc > 3<<30 {
+			fmt.Fprintln(os.Stderr, "VERIF-MEMORY-BUDGET exceeded: heap", ms.HeapAlloc)
+			os.Exit(3)
+		}
+	}
 }
 
 func runGuarded(c *Ctx, t *testing.T, run Runner) {
